@@ -16,7 +16,7 @@ From PV Require Import Tensor.Kernels Tensor.Index Tensor.KernelProofs Tensor.Pr
                        Tensor.ProofsGather Tensor.ProofsPerm Tensor.ProofsBatchSample Tensor.ProofsBatchLaw.
 Import ListNotations.
 
-(* MAIN (extended operator set: elementwise, slice/split, pick, concat, broadcast, flip, transpose, permute_dims, axis reductions, matmul, conv2d, max_pool2d - each through its index program of Tensor/Kernels.v): for every program accepted with minibatch size B (every operand batch 1 or B, shape rules of core/shape_ops.cc), evaluating it on the b-th samples alone (a batch-1 leaf shared, a per-sample pick index list reduced to its b-th entry) gives (batch-1 shape, sample b of the batched evaluation - the single sample when the result is shared) *)
+(* MAIN (extended operator set: elementwise, slice/split, pick, concat, broadcast, flip, transpose, permute_dims, reshape/flatten, axis reductions, matmul, conv2d, max_pool2d - each through its index program of Tensor/Kernels.v): for every program accepted with minibatch size B (every operand batch 1 or B, shape rules of core/shape_ops.cc), evaluating it on the b-th samples alone (a batch-1 leaf shared, a per-sample pick index list reduced to its b-th entry) gives (batch-1 shape, sample b of the batched evaluation - the single sample when the result is shared) *)
 Theorem C03_batch_law_program_ext :
   forall (T : Type) (zero : T) (add mul : T -> T -> T) (B b : nat) (e : xexpr T),
   0 < B ->
@@ -65,6 +65,27 @@ Theorem C03_xeval_good :
   0 < B -> xwf T zero add mul B e -> good T B (xeval T zero add mul e).
 Proof. exact xeval_good. Qed.
 Print Assumptions C03_xeval_good.
+
+(* batch sizes other than equal-or-1 are rejected: results of accepted programs feeding one operator have compatible batches *)
+Theorem C03_accepted_batches_compatible :
+  forall (T : Type) (zero : T) (add mul : T -> T -> T) (B : nat) (e1 e2 : xexpr T),
+  0 < B ->
+  xwf T zero add mul B e1 ->
+  xwf T zero add mul B e2 ->
+  tbatch (fst (xeval T zero add mul e1)) = tbatch (fst (xeval T zero add mul e2)) \/
+  tbatch (fst (xeval T zero add mul e1)) = 1 \/ tbatch (fst (xeval T zero add mul e2)) = 1.
+Proof. exact accepted_batches_compatible. Qed.
+Print Assumptions C03_accepted_batches_compatible.
+
+(* ... and no minibatch size accepts operands with two different batch sizes > 1 *)
+Theorem C03_mixed_batches_rejected :
+  forall (T : Type) (zero : T) (add mul op : T -> T -> T) (s1 : tshape) (v1 : list T) 
+    (s2 : tshape) (v2 : list T) (B : nat),
+  1 < tbatch s1 ->
+  1 < tbatch s2 ->
+  tbatch s1 <> tbatch s2 -> ~ xwf T zero add mul B (XBin T op (XLeaf T s1 v1) (XLeaf T s2 v2)).
+Proof. exact mixed_batches_rejected. Qed.
+Print Assumptions C03_mixed_batches_rejected.
 
 (* the language extends the elementwise language of ProofsBilinear: same evaluation *)
 Theorem C03_embed_eval :
@@ -289,6 +310,42 @@ Theorem C03_pool2d_sample :
   pool2d_val T zero f (unb sx) w0 w1 p0 p1 s0 s1 (block b (tvolume sx) x).
 Proof. exact pool2d_sample. Qed.
 Print Assumptions C03_pool2d_sample.
+
+(* reshape / flatten / copy (identity movement) *)
+Theorem C03_reshape_sample :
+  forall (T : Type) (zero : T) (sx : tshape) (dims : list nat) (x : list T) (b : nat),
+  reshape_ok sx dims ->
+  b < tbatch sx ->
+  block b (tvolume (reshape_shape sx dims)) (copy_val T zero (tsize sx) x) =
+  copy_val T zero (tsize (unb sx)) (block b (tvolume sx) x).
+Proof. exact reshape_sample. Qed.
+Print Assumptions C03_reshape_sample.
+
+(* softmax = exp(x - broadcast(logsumexp(x))) is a program of the language; its per-sample program is the same composite *)
+Theorem C03_x_softmax_sample :
+  forall (T : Type) (b : nat) (exp_ : T -> T) (sub : T -> T -> T) (lse : list T -> T) 
+    (dim n : nat) (e : xexpr T),
+  xsample T b (x_softmax T exp_ sub lse dim n e) = x_softmax T exp_ sub lse dim n (xsample T b e).
+Proof. exact x_softmax_sample. Qed.
+Print Assumptions C03_x_softmax_sample.
+
+(* softmax_cross_entropy(x, t) likewise *)
+Theorem C03_x_softmax_cross_entropy_sample :
+  forall (T : Type) (b : nat) (neg : T -> T) (mulop : T -> T -> T) (sum : list T -> T)
+    (sub : T -> T -> T) (lse : list T -> T) (dim n : nat) (e t : xexpr T),
+  xsample T b (x_softmax_cross_entropy T neg mulop sum sub lse dim n e t) =
+  x_softmax_cross_entropy T neg mulop sum sub lse dim n (xsample T b e) (xsample T b t).
+Proof. exact x_softmax_cross_entropy_sample. Qed.
+Print Assumptions C03_x_softmax_cross_entropy_sample.
+
+(* softmax_cross_entropy(x, ids) likewise, the id list reduced to its b-th entry *)
+Theorem C03_x_softmax_cross_entropy_ids_sample :
+  forall (T : Type) (b : nat) (neg : T -> T) (sub : T -> T -> T) (lse : list T -> T) 
+    (dim n : nat) (ids : list nat) (e : xexpr T),
+  xsample T b (x_softmax_cross_entropy_ids T neg sub lse dim n ids e) =
+  x_softmax_cross_entropy_ids T neg sub lse dim n [nth (bidx (length ids) b) ids 0] (xsample T b e).
+Proof. exact x_softmax_cross_entropy_ids_sample. Qed.
+Print Assumptions C03_x_softmax_cross_entropy_ids_sample.
 
 (* the generic fact behind the data-movement kernels: if every entry (d, k, s) of the per-sample program reappears in the batched one as (b*Vy + d, k, off k + s), sample b of the batched output is the per-sample output *)
 Theorem C03_mov_sample :
